@@ -16,7 +16,7 @@ theorem recreate_expand (o : Oracle) (crc : Bytes → Nat) (f : Bytes)
     (Nat.le_refl _) (Nat.zero_le _) (by omega) (by omega)
   obtain ⟨w, hw, hr⟩ := readChunks_write o crc f hb hf hsize chunks 0 hcov
   refine ⟨Gen.WRAPPER_VERSION :: w, ?_, ?_⟩
-  · simp only [expand, scan, hscan, hw, bind_ok]
+  · simp only [expand, scan, hscan, hw, c_bind_ok]
   · simp only [recreate, ne_eq, not_true_eq_false, if_false]
     exact hr _ (Nat.le_refl _)
 
